@@ -311,7 +311,7 @@ def parseExpression (tb : Tables) (fuel : Nat) : PM Expr :=
   | fuel + 1 => do
     let left ← parsePratt tb fuel 0
     if (← matchTok .Equals) then
-      let value ← parseExpression tb fuel
+      let value ← withDepth (parseExpression tb fuel)
       match left with
       | .var name p => pure (.assign name value p)
       | .index coll idx p => pure (.arrAssign coll idx value p)
